@@ -11,7 +11,9 @@
 (*   Hung                 a step did not return (watchdog): no action of the specification explains it    *)
 (* Every call to a relay or node is a process of its own: Start carries what the client was handed  *)
 (* and whether the call's context was already cancelled (cx), Batch what the relay received, Finish  *)
-(* the outcome ("ctx" = the fake saw its context cancelled before the call completed).  The order   *)
+(* the outcome ("ok"; the KIND of the relay's / node's own failure: "err" | "deadline" | "canceled"  *)
+(* | "notactive" = ErrKindsAll of BlockRelay; "ctx" = the fake saw its context cancelled before the   *)
+(* call completed).  The order                                                                     *)
 (* of the overlapping calls inside a round is the code's: any order is accepted.                    *)
 EXTENDS BlockRelay, TraceLib
 
